@@ -109,6 +109,12 @@ def rule_no_delivery_on_failure(ctx):
     ctx.ob("RESULT: otherwise the call fails with the encryption error", ok, "reject changed", om.fn.loc())
     prog = [(n, c) for n in nodes for c in node_calls(n) if call_name(c) == "txaio.as_future" and c.args and "on_progress" in norm.text(c.args[0])]
     ctx.ob("RESULT progress: handler only when decryption succeeded", bool(prog) and all(("truth", "enc_err", None, False) in mf.at(n) for n, c in prog), "progress delivered despite enc_err", om.fn.loc())
+    # once decode() has returned, every delivery (final or progressive) lies behind the URI comparison
+    cmp_r = _uri_compared(om.fn.node, [n for n in nodes if n.kind == "test"], dc, res)
+    after = [m for m, lab in dn.succ if not (lab and lab[0] == "exc")]
+    bypass = [stmt_key(c)[:45] for n, c in resolves + prog if cmp_r is None or any(g.path_exists(m, n, avoid=lambda x: x is cmp_r) for m in after if m is not cmp_r)]
+    ctx.ob("RESULT: a decrypted payload reaches the caller (result or progress handler) only through the URI comparison", cmp_r is not None and not bypass,
+           f"reachable from decode() without passing the comparison: {bypass[:2]}", om.fn.loc(dc))
     # ---------------- INVOCATION
     nodes = om.arm_nodes("Invocation")
     dec = _decode_sites(om.fn, g, mf, lambda n: n in nodes)
